@@ -42,6 +42,9 @@ pub struct Rec {
     pub ops: Vec<String>,
     pub imp: Vec<String>,
     pub handler: Vec<String>,
+    /// behaviour ops (`B …`, with the client's peer table after the op) and handler records (`H …`)
+    /// of this node in the order they happened: the input of `bsdriver lvalidate`
+    pub link: Vec<String>,
 }
 
 #[derive(Clone)]
@@ -52,7 +55,9 @@ pub struct Recorder {
 
 impl Recorder {
     fn handler(&self, s: String) {
-        self.rec.lock().unwrap().handler.push(s);
+        let mut r = self.rec.lock().unwrap();
+        r.link.push(format!("H {s}"));
+        r.handler.push(s);
     }
 }
 
@@ -74,6 +79,7 @@ impl Wrap {
     pub fn record_op(&mut self, op: String, pre: &str) {
         let line = format!("{} ## {}", pre, self.fmt.state(&self.inner));
         let mut r = self.recorder.rec.lock().unwrap();
+        r.link.push(format!("B {op} ## {}", peers_field(&line)));
         r.ops.push(format!("n {op}"));
         r.imp.push(line);
     }
@@ -90,6 +96,7 @@ impl Wrap {
         if head.is_empty() && r.ops.last().map_or(false, |o| o.starts_with("n drain")) && r.imp.last() == Some(&line) {
             return;
         }
+        r.link.push(format!("B drain {} ## {} ## {}", choices(&line), peers_field(&line), sends_of(&line)));
         r.ops.push(format!("n drain {}", choices(&line)));
         r.imp.push(line);
     }
@@ -252,6 +259,17 @@ impl NetworkBehaviour for Wrap {
             }
         }
     }
+}
+
+/// the `P=` field (client peer table) of an implementation output line
+fn peers_field(line: &str) -> String {
+    line.split(" ## ").nth(1).unwrap_or("").split('|').find(|f| f.starts_with("P=")).unwrap_or("P=").to_string()
+}
+
+/// the `send:…` tokens (wantlists handed to connections) of a drain's output line
+fn sends_of(line: &str) -> String {
+    let v: Vec<&str> = line.split(" ## ").next().unwrap_or("").split(' ').filter(|t| t.starts_with("send:")).collect();
+    v.join(" ")
 }
 
 /// Forwards everything to beetswap's `ConnHandler`, recording its inputs and outputs.
@@ -528,6 +546,7 @@ impl Sim {
             swarm.listen_on(addr.clone()).expect("listen");
             let flag = Arc::new(Flag(AtomicBool::new(true)));
             let waker = Waker::from(flag.clone());
+            rec.lock().unwrap().link.push(format!("B reset {}", sdh as u8));
             rec.lock().unwrap().ops.push(format!("n reset {}", sdh as u8));
             rec.lock().unwrap().imp.push("ok".into());
             nodes.push(Node { idx: i, peer, addr, swarm, flag, waker, spawned, tasks: vec![], rec, store, content: BTreeMap::new(), prefix: prefixes[i].clone(), conns: BTreeMap::new(), events: vec![] });
